@@ -334,7 +334,7 @@ impl Check for C15 {
         CheckInfo {
             id: "C15",
             level: "model_checking",
-            rule: "a parent whose calling act sits in one branch while an interrupt is open in the sibling branch, a child (and a grandchild in the 3-level variant) ended by complete with outputs / error with code and message / abort / skip, a missing target model, declared outputs on the call; every order of queued tasks, launches, return activities and client answers (A-mode exhaustive, deviation-bounded for three levels); oracle per call: open until the callee's terminal event, closed once with the mapped state, outputs / error code handed back, callee started with exactly the call options plus the link keys, caller's terminal event after the callee's, missing model fails the act".into(),
+            rule: "a parent whose calling act sits in one branch while an interrupt is open in the sibling branch, a child (and a grandchild in the 3-level variant) ended by complete with outputs / error with code and message / abort / skip / a script that throws, a missing target model, declared outputs on the call with every ending, an interrupt act after the call in the same step, the client closing the calling act itself (skip / complete / abort) under the running child; every order of queued tasks, launches, return activities and client answers (A-mode exhaustive, deviation-bounded for three levels); oracle per call: open until the callee's terminal event, closed once with the mapped state, outputs / error code handed back, callee started with exactly the call options plus the link keys, caller's terminal event after the callee's, missing model fails the act, the act after the call starts once and only after the call is closed".into(),
             assumptions: vec!["activities are atomic; no reachable way was found for a process to end in state skipped (skipping the child's only act ends the child completed), so the skipped mapping is reported as vacuous".into()],
             budget_s: tier.pick(50, 600),
             exhaustive_when_uncapped: true,
